@@ -467,18 +467,25 @@ pub fn c03_c11_c20() -> Result<u64, String> {
 pub fn c06() -> Result<u64, String> {
     let mut r = Rng::new(seed() ^ 6);
     let mut n = 0u64;
-    for &len in &[0usize, 1, 2, 100, 4000, 4063, 4064, 4070, 4095, 4096, 4097, 9000, 20000] { for c in COMPS { for start in [None, Some(1usize), Some(7), Some(4096), Some(100_000)] {
+    // the largest list whose uncompressed encoding still fits the root budget: written at stream positions > 0 it must still be a single root
+    let mk = |len: usize, r: &mut Rng| -> Vec<E> { (0..len as u64).map(|i| E { id: i * 2, off: 130 * i + r.below(2), len: 2, run: 1 }).collect() };
+    let mut fit = 4064usize; while fit > 1000 && dir_enc(&mk(fit, &mut Rng::new(1))).len() > 16257 { fit -= 1; }
+    let mut plan: Vec<(usize, usize)> = Vec::new();
+    for &len in &[0usize, 1, 2, 100, 4000, 4063, 4064, 4070, 4095, 4096, 4097, 9000, 20000] { plan.push((len, 5)); }
+    for pre in [127usize, 1000, 70000] { plan.push((fit, pre)); plan.push((fit - 1, pre)); plan.push((fit + 1, pre)); plan.push((9000, pre)); }
+    for &(len, pre) in &plan { for c in COMPS { for start in [None, Some(1usize), Some(7), Some(4096), Some(100_000)] {
         if start == Some(1) && len > 4100 { continue; }
+        if pre != 5 && start.is_some() && start != Some(4096) { continue; }
         n += 1;
         // entries sized so that the uncompressed encoding is about 4 bytes per entry (root lands around the 16 KiB window at ~4064 entries)
-        let es: Vec<E> = (0..len as u64).map(|i| E { id: i * 2, off: 130 * i + r.below(2), len: 2, run: 1 }).collect();
-        let mut out = Cursor::new(vec![0x11u8; 5]); out.seek(SeekFrom::Start(5)).unwrap();
+        let es: Vec<E> = if pre != 5 && (len == fit || len == fit - 1 || len == fit + 1) { mk(len, &mut Rng::new(1)) } else { mk(len, &mut r) };
+        let mut out = Cursor::new(vec![0x11u8; pre]); out.seek(SeekFrom::Start(pre as u64)).unwrap();
         let strat = start.map(|s| util::WriteDirsOverflowStrategy::OnlyLeafPointers { start_size: Some(s) });
         let leaves = util::write_directories(&mut out, &to_entries(&es), c, strat).map_err(|e| format!("write_directories failed: {e}"))?;
         let endpos = out.position() as usize; let buf = out.into_inner();
-        let desc = format!("{len} entries, {c:?}, start_size {start:?}");
-        if buf[..5] != [0x11; 5] { return Err(format!("bytes before the directory were modified ({desc})")); }
-        let root_raw = &buf[5..endpos];
+        let desc = format!("{len} entries, {c:?}, start_size {start:?}, stream position {pre}");
+        if buf[..pre].iter().any(|&x| x != 0x11) { return Err(format!("bytes before the directory were modified ({desc})")); }
+        let root_raw = &buf[pre..endpos];
         if root_raw.len() > 16257 { return Err(format!("root directory has {} bytes > 16257 ({desc})", root_raw.len())); }
         let root = dir_dec(&decompress(code(c), root_raw)?).ok_or(format!("root does not decode ({desc})"))?;
         let whole = compress(code(c), &dir_enc(&es));
